@@ -115,7 +115,7 @@ def project(st, ns, nk):
             r = T[(c, k)]
             sst = r['sst']
             v += [ENUM[r['cst']], 0 if sst in ('none', 'closed') else ENUM[sst], 1 if r['wrap'] == 'held' else 0,
-                  1 if r['wcl'] and r['wrap'] == 'held' else 0, 1 if r['sp'] > 0 else 0, r['sb'], 1 if r['cp'] > 0 else 0, r['cb']]
+                  1 if r['wcl'] and r['wrap'] == 'held' else 0, r['sp'], r['sb'], r['cp'], r['cb']]
     return v
 
 
@@ -196,9 +196,9 @@ def macro_graph(nodes_txt, edges, inits, ns, nk, keep_states=False):
 QUICK_GRAPHS = [
     dict(name='1x1-all', ns=1, nk=1, ws=[2], rs=[1, 3], maxw=1, bcap=1, feat=['sessclose', 'lclose2', 'pread']),
     dict(name='1x2-up', ns=1, nk=2, ws=[2], rs=[3], maxw=1, bcap=1, feat=['nodown']),
-    dict(name='2x1-up', ns=2, nk=1, ws=[2], rs=[3], maxw=1, bcap=2, feat=['nodown']),
 ]
 THOROUGH_GRAPHS = [
+    dict(name='2x1-up', ns=2, nk=1, ws=[2], rs=[3], maxw=1, bcap=2, feat=['nodown']),
     dict(name='1x2', ns=1, nk=2, ws=[2], rs=[3], maxw=1, bcap=1, feat=[]),
     dict(name='2x1-sessclose', ns=2, nk=1, ws=[2], rs=[3], maxw=1, bcap=2, feat=['sessclose']),
     dict(name='1x1-2writes', ns=1, nk=1, ws=[1, 2], rs=[1, 3], maxw=2, bcap=1, feat=['pread']),
@@ -329,7 +329,7 @@ def run(prop, tier, seed, replay=None):
     dwprobe = {'name': 'dead-write-probe', 'ns': 1, 'nk': 1, 'bcap': 1, 'unit': 100, 'small': False,
                'steps': [fstep('connect', [1], 'ok'), fstep('open', [1, 1], 'ok'), fstep('write', [0, 1, 1, 2], 'ok'),
                          dict(fstep('accept', [], 'conn'), rn=[1, 1]), fstep('sessclose', [1], 'ok'),
-                         fstep('write', [1, 1, 1, 2], 'err')]}
+                         fstep('await_session_end', [1], 'ok'), fstep('write', [1, 1, 1, 2], 'err')]}
     # staged interleaving found by TLC (Sync = FALSE, AtMostOnce): the client's second Write is in flight when the
     # server closes the conn; the event loop is held off during the two calls
     ghost = {'name': 'late-data-probe', 'ns': 1, 'nk': 1, 'bcap': 1, 'unit': 100, 'small': False,
@@ -484,8 +484,8 @@ def run(prop, tier, seed, replay=None):
 
     # ---- the real code walks the graphs
     quick = ck.tier == 'quick'
-    job = {'graphs': jgraphs, 'paths': [witness] if witness else [], 'seed': ck.seed, 'workers': 10,
-           'max_attempts': 6, 'budget_ms': 40000 if quick else 600000, 'max_path_len': 120, 'known': listed,
+    job = {'graphs': jgraphs, 'paths': [witness] if witness else [], 'seed': ck.seed, 'workers': 8,
+           'max_attempts': 6, 'budget_ms': 35000 if quick else 600000, 'max_path_len': 120, 'known': listed,
            'prune_dead_write': prune,
            'units': [1, 3, 64, 100, 1000, 5000] if quick else [1, 3, 64, 100, 1000, 5000, 8172, 8173, 40000, 140000]}
     wd = tlc.scratch('vnl')
